@@ -298,6 +298,28 @@ def check(case: t.Any, ctx: Ctx) -> None:
             ('Path', lambda: reader(pathlib.Path(path), T)),
             ('str path', lambda: reader(path, T)),
         ]
+        # a caller's file that has been read from already (a header line consumed), and a text stream that is not an
+        # io.IOBase instance (what tempfile.NamedTemporaryFile('w+') and codecs.open hand out): both are "text streams supplied by the caller"
+        hdr_path = path + '.hdr'
+        with open(hdr_path, 'w', encoding='utf-8', newline='') as fh:
+            fh.write('header line\n' + text)
+
+        def after_header() -> t.Any:
+            with open(hdr_path, encoding='utf-8') as fh2:
+                assert fh2.readline() == 'header line\n'
+                out = reader(fh2, T)
+                if fh2.closed:
+                    raise AssertionError("the caller's file was closed")
+                return out
+
+        def temp_wrapper() -> t.Any:
+            import tempfile
+            with tempfile.NamedTemporaryFile('w+', encoding='utf-8', dir=_tmpdir()) as tf:
+                tf.write(text)
+                tf.seek(0)
+                return reader(tf, T)
+        sources.append(('file-after-header', after_header))
+        sources.append(('tempfile-wrapper', temp_wrapper))
         if is_cls:
             sources.append(('classmethod string', lambda: (T.from_jsons if fmt == 'json' else T.from_yamls)(text)))
             sources.append(('classmethod stream', lambda: (T.from_json if fmt == 'json' else T.from_yaml)(io.StringIO(text))))
